@@ -31,6 +31,7 @@ type FSEvent struct {
 	Created   bool
 	Truncated bool
 	Append    bool
+	Stamp     int64 // global step counter when the event happened (multi-task runs)
 }
 
 // Mutation reports whether the event changed the persistent state (is a crash point).
@@ -49,6 +50,7 @@ type FSTrace struct {
 	CurOp  int32
 	CurSub int32
 	nextFd int32
+	Stamp  func() int64 // optional: stamps events (multi-task runs under the plain build only)
 }
 
 // FS is the recorder of the run in progress (nil: no recording).
@@ -64,5 +66,8 @@ func (t *FSTrace) NewFd() int32 {
 func (t *FSTrace) Add(e FSEvent) {
 	e.Op = t.CurOp
 	e.Sub = t.CurSub
+	if t.Stamp != nil {
+		e.Stamp = t.Stamp()
+	}
 	t.Events = append(t.Events, e)
 }
